@@ -76,9 +76,14 @@ class BaseTranslateFilter:
             }
 
         # Missing variables get replaced by the current `Undefined` type and we're
-        # converting all values to a string, so a KeyError or a ValueError should
-        # be impossible.
-        return message_text % _vars
+        # converting all values to a string. A message can still contain format
+        # specifiers that are incomplete or not supported.
+        try:
+            return message_text % _vars
+        except (ValueError, KeyError, TypeError) as err:
+            raise TranslationValueError(
+                f"can't format message {message_text!r}: {err}", token=None
+            ) from err
 
     def _resolve_translations(self, context: RenderContext) -> Translations:
         return cast(
@@ -444,5 +449,5 @@ def _count(val: Any) -> Optional[int]:
         return None
     try:
         return int(val)
-    except ValueError:
+    except (ValueError, OverflowError, TypeError):
         return None
